@@ -5,18 +5,12 @@ on each trickle tick: drop what became known, batch into `inv` messages of at mo
 -/
 namespace BV.C18.Trickle
 
-def maxInvTrickleSize : Nat := 1000
-
 /-- The batching loop of the trickle tick: `cur` is the `inv` message being filled. -/
 def batch (max : Nat) : List Nat → List Nat → List (List Nat)
   | [], cur => if cur.isEmpty then [] else [cur]
   | x :: xs, cur =>
     if max ≤ (cur ++ [x]).length then (cur ++ [x]) :: batch max xs []
     else batch max xs (cur ++ [x])
-
-/-- One tick: inventory the peer is already known to have is skipped. -/
-def tick (known queue : List Nat) : List (List Nat) :=
-  batch maxInvTrickleSize (queue.filter (fun x => !known.contains x)) []
 
 theorem batch_flatten (max : Nat) : ∀ (l cur : List Nat), (batch max l cur).flatten = cur ++ l
   | [], cur => by
@@ -85,15 +79,13 @@ namespace BV.C18.Trickle
 
 /-! ### the known-inventory cache (`lru.Cache`, most recently used first) -/
 
-def maxKnownInventory : Nat := 1000
-
 /-- `Contains` marks the entry as most recently used. -/
 def lruContains (l : List Nat) (x : Nat) : Bool × List Nat :=
   if l.contains x then (true, x :: l.erase x) else (false, l)
 
 /-- `Add`: move to front if present, else insert and evict the least recently used. -/
-def lruAdd (l : List Nat) (x : Nat) : List Nat :=
-  if l.contains x then x :: l.erase x else (x :: l).take maxKnownInventory
+def lruAdd (limit : Nat) (l : List Nat) (x : Nat) : List Nat :=
+  if l.contains x then x :: l.erase x else (x :: l).take limit
 
 /-- `QueueInventory` for a sequence of transaction inventory: skipped when known. -/
 def enqueue : List Nat → List Nat → List Nat → List Nat × List Nat
@@ -104,21 +96,23 @@ def enqueue : List Nat → List Nat → List Nat → List Nat × List Nat
 
 /-- The filtering pass of one trickle tick (what became known meanwhile is dropped; what is
 sent becomes known). -/
-def fresh : List Nat → List Nat → List Nat × List Nat
+def fresh (limit : Nat) : List Nat → List Nat → List Nat × List Nat
   | lru, [] => (lru, [])
   | lru, x :: xs =>
     let (c, lru') := lruContains lru x
-    if c then fresh lru' xs
+    if c then fresh limit lru' xs
     else
-      let (l2, r) := fresh (lruAdd lru' x) xs
+      let (l2, r) := fresh limit (lruAdd limit lru' x) xs
       (l2, x :: r)
 
-/-- Scenario of the `inv` op: ids 1..k made known, 1..n queued, k+1..k+d queued again. -/
-def scenario (n k d : Nat) : List (List Nat) :=
-  let lru0 := (List.range k).foldl (fun l i => lruAdd l (i + 1)) []
+/-- Scenario of the `inv` op: ids 1..k made known, 1..n queued, k+1..k+d queued again. The batch
+size and the cache limit are internal tuning values of the implementation: they are read from
+the tree by the harness and passed in. -/
+def scenario (maxBatch limit n k d : Nat) : List (List Nat) :=
+  let lru0 := (List.range k).foldl (fun l i => lruAdd limit l (i + 1)) []
   let (lru1, q1) := enqueue lru0 [] ((List.range n).map (· + 1))
   let (lru2, q2) := enqueue lru1 q1 ((List.range d).map (· + k + 1))
-  batch maxInvTrickleSize (fresh lru2 q2).2 []
+  batch maxBatch (fresh limit lru2 q2).2 []
 
 def checksum (l : List Nat) : Nat :=
   (l.zipIdx.foldl (fun acc (x, i) => (acc + (i + 1) * x) % 1000000007) 0)
